@@ -144,8 +144,15 @@ def perfect_op(x: Pbox, y: Pbox, op=operator.add):
     note:
         defined for addition and multiplication. Different for subtraction and division.
     """
-    nleft = op(x.left, y.left)
-    nright = op(x.right, y.right)
+    # each focal pair combines by interval arithmetic: min / max over the four corners
+    corners = [
+        op(x.left, y.left),
+        op(x.left, y.right),
+        op(x.right, y.left),
+        op(x.right, y.right),
+    ]
+    nleft = np.minimum.reduce(corners)
+    nright = np.maximum.reduce(corners)
 
     nleft.sort()
     nright.sort()
@@ -158,8 +165,16 @@ def opposite_op(x: Pbox, y: Pbox, op=operator.add):
     note:
         defined for addition and multiplication. Different for subtraction and division.
     """
-    nleft = op(x.left, np.flip(y.left))
-    nright = op(x.right, np.flip(y.right))
+    # step k of x meets step n-1-k of y; combine the pair by interval arithmetic
+    y_left, y_right = np.flip(y.left), np.flip(y.right)
+    corners = [
+        op(x.left, y_left),
+        op(x.left, y_right),
+        op(x.right, y_left),
+        op(x.right, y_right),
+    ]
+    nleft = np.minimum.reduce(corners)
+    nright = np.maximum.reduce(corners)
     nleft.sort()
     nright.sort()
     return nleft, nright
